@@ -1,4 +1,344 @@
+import Cpl.Spec.Torus
 import Cpl.Model.Rules
+import Cpl.Properties.C04
+import Cpl.Lemmas.Life
+
+/-!
+# C11 — Game of Life rule is Conway's B3/S23
+
+`game_of_life_rule` returns 1 exactly when a dead centre cell has three live neighbours or a live centre
+cell has two or three, for every binary 3×3 neighbourhood, and `evolve2d` with it (Moore, `r = 1`, every
+memoize mode) equals the Life update of the torus. Hence still lifes stay fixed, the blinker has period
+two and a glider reappears shifted by one cell diagonally after four steps, wherever it is placed and
+across the periodic boundary (the concrete patterns are checked on all tori `5..10 × 5..10`; the
+translation theorem `lifeStep_shift` carries each of them to every placement).
+-/
+
 namespace Cpl.C11
-theorem placeholder : True := trivial
+open Cpl Cpl.Spec
+
+/-! ## The rule -/
+
+/-- Conway's rule B3/S23: a dead cell (0) becomes live on exactly three live neighbours, a live cell
+    stays live on two or three. -/
+def b3s23 (centre nbrs : Int) : Int :=
+  if centre = 0 then (if nbrs = 3 then 1 else 0) else (if nbrs = 2 ∨ nbrs = 3 then 1 else 0)
+
+/-- `g[i][j]`. -/
+def cell (g : Grid Int) (i j : Nat) : Int := (g[i]!)[j]!
+
+/-- A 3×3 nested list whose nine entries are 0 or 1. -/
+def IsBinary3x3 (n : Grid Int) : Prop :=
+  n.length = 3 ∧ ∀ row ∈ n, row.length = 3 ∧ ∀ x ∈ row, x = 0 ∨ x = 1
+
+/-- **The rule is B3/S23**: on every binary 3×3 neighbourhood `game_of_life_rule` returns Conway's value
+    for the centre cell and the sum of the eight other cells. -/
+theorem gol_spec (n : Grid Int) (hn : IsBinary3x3 n) :
+    golRule n = some (b3s23 (cell n 1 1)
+      (cell n 0 0 + cell n 0 1 + cell n 0 2 + cell n 1 0 + cell n 1 2 + cell n 2 0 + cell n 2 1 + cell n 2 2)) :=
+  Life.gol_bin3 n hn
+
+/-- The same with the nine cells named. -/
+theorem gol_spec_cells (a b c d e f g h i : Int)
+    (ha : a = 0 ∨ a = 1) (hb : b = 0 ∨ b = 1) (hc : c = 0 ∨ c = 1) (hd : d = 0 ∨ d = 1)
+    (he : e = 0 ∨ e = 1) (hf : f = 0 ∨ f = 1) (hg : g = 0 ∨ g = 1) (hh : h = 0 ∨ h = 1)
+    (hi : i = 0 ∨ i = 1) :
+    golRule [[a, b, c], [d, e, f], [g, h, i]] = some (b3s23 e (a + b + c + d + f + g + h + i)) :=
+  Life.gol_explicit a b c d e f g h i ha hb hc hd he hf hg hh hi
+
+/-- **The rule is total on binary input**: the Python function never falls off its end. -/
+theorem gol_total (n : Grid Int) (hn : IsBinary3x3 n) : golRule n ≠ none := by
+  rw [gol_spec n hn]; simp
+
+/-- The result is again 0 or 1. -/
+theorem gol_binary (n : Grid Int) (hn : IsBinary3x3 n) : golRule n = some 0 ∨ golRule n = some 1 := by
+  rw [gol_spec n hn]
+  rcases Life.b3s23_binary (cell n 1 1)
+    (cell n 0 0 + cell n 0 1 + cell n 0 2 + cell n 1 0 + cell n 1 2 + cell n 2 0 + cell n 2 1 + cell n 2 2)
+    with h | h
+  · left; exact congrArg some h
+  · right; exact congrArg some h
+
+/-- The 512 binary 3×3 neighbourhoods: the nine bits of `k < 512`, row-major. -/
+def allBinary3x3 : List (Grid Int) :=
+  (List.range 512).map fun k =>
+    (List.range 3).map fun i => (List.range 3).map fun j => (((k / 2 ^ (3 * i + j)) % 2 : Nat) : Int)
+
+/-- Reading the nine cells back as the bits of a number. -/
+def encode3x3 (n : Grid Int) : Nat :=
+  (List.range 9).foldl (fun acc p => acc + (cell n (p / 3) (p % 3)).toNat * 2 ^ p) 0
+
+/-- Complete enumeration (kernel evaluation): the list consists of 512 pairwise different binary 3×3
+    neighbourhoods (the `k`-th one encodes `k`), and on each of them the rule returns 1 exactly when
+    (dead and three live neighbours) or (live and two or three). -/
+example : allBinary3x3.map encode3x3 = List.range 512 ∧
+    (∀ n ∈ allBinary3x3, ∀ row ∈ n, ∀ x ∈ row, x = 0 ∨ x = 1) ∧
+    ∀ n ∈ allBinary3x3,
+      let nbrs := cell n 0 0 + cell n 0 1 + cell n 0 2 + cell n 1 0 + cell n 1 2 + cell n 2 0 + cell n 2 1
+        + cell n 2 2
+      golRule n = some (if (cell n 1 1 = 0 ∧ nbrs = 3) ∨ (cell n 1 1 = 1 ∧ (nbrs = 2 ∨ nbrs = 3)) then 1 else 0) := by
+  decide +kernel
+
+/-- Outside the contract the function can fall off its end (`None`): centre 1 with a total of 0. -/
+example : golRule [[0, 0, 0], [0, 1, -1], [0, 0, 0]] = some 0 := by decide
+example : golRule [[0, 0, 0], [0, 1, 0], [0, 0, 2]] = some 1 := by decide
+
+/-! ## The Life update of the torus -/
+
+/-- **Specification**: one synchronous Life step of the `R × C` torus. Cell `(i, j)` becomes B3/S23 of
+    its own state and the sum of its eight neighbours, all indices modulo `R` and `C`. -/
+def lifeStep (R C : Nat) (g : Grid Int) : Grid Int :=
+  (List.range R).map fun i => (List.range C).map fun j =>
+    b3s23 (cell g i j)
+      (cell g ((i + R - 1) % R) ((j + C - 1) % C) + cell g ((i + R - 1) % R) j
+        + cell g ((i + R - 1) % R) ((j + 1) % C)
+        + cell g i ((j + C - 1) % C) + cell g i ((j + 1) % C)
+        + cell g ((i + 1) % R) ((j + C - 1) % C) + cell g ((i + 1) % R) j
+        + cell g ((i + 1) % R) ((j + 1) % C))
+
+/-- The grids after `1, 2, …, k` Life steps. -/
+def lifeRun (R C : Nat) : Nat → Grid Int → List (Grid Int)
+  | 0, _ => []
+  | k + 1, g => lifeStep R C g :: lifeRun R C k (lifeStep R C g)
+
+/-- The grid after `k` Life steps. -/
+def lifeIter (R C : Nat) : Nat → Grid Int → Grid Int
+  | 0, g => g
+  | k + 1, g => lifeIter R C k (lifeStep R C g)
+
+/-- Every cell is 0 or 1. -/
+def Binary (g : Grid Int) : Prop := ∀ row ∈ g, ∀ x ∈ row, x = 0 ∨ x = 1
+
+/-- `game_of_life_rule` as the rule callable handed to `evolve2d` (Moore neighbourhoods are unmasked;
+    `d` is what a `None` result would be turned into — it never occurs on binary grids). -/
+def golRule2 (d : Int := 0) : Rule2 Unit Int :=
+  fun u n _ _ => ((golRule (n.map (·.map (·.getD 0)))).getD d, u)
+
+theorem lifeStep_eq (R C : Nat) (g : Grid Int) :
+    lifeStep R C g = (List.range R).map fun i => (List.range C).map fun j => Life.lifeCell R C g i j := rfl
+
+/-- A Life step yields an `R × C` grid of zeros and ones. -/
+theorem lifeStep_rect (R C : Nat) (g : Grid Int) : Rect (lifeStep R C g) R C :=
+  Life.tabulate_rect R C _
+
+theorem lifeStep_binary (R C : Nat) (g : Grid Int) : Binary (lifeStep R C g) :=
+  Life.tabulate_binary R C _ fun _ _ => Life.b3s23_binary _ _
+
+/-- The value of cell `(i, j)` after a step, read off the grid. -/
+theorem lifeStep_cell (R C : Nat) (g : Grid Int) (i j : Nat) (hi : i < R) (hj : j < C) :
+    cell (lifeStep R C g) i j =
+      b3s23 (cell g i j)
+        (cell g ((i + R - 1) % R) ((j + C - 1) % C) + cell g ((i + R - 1) % R) j
+          + cell g ((i + R - 1) % R) ((j + 1) % C)
+          + cell g i ((j + C - 1) % C) + cell g i ((j + 1) % C)
+          + cell g ((i + 1) % R) ((j + C - 1) % C) + cell g ((i + 1) % R) j
+          + cell g ((i + 1) % R) ((j + 1) % C)) :=
+  Life.cell_tabulate R C _ hi hj
+
+/-- One step of the model's pure torus update with the Game of Life rule is `lifeStep`. -/
+theorem pureStep2_gol_eq_life (d : Int) (R C : Nat) (g : Grid Int) (hg : Rect g R C) (hb : Binary g) :
+    pureStep2 (fun n => (golRule (n.map (·.map (·.getD 0)))).getD d) R C 1 false g = lifeStep R C g :=
+  Life.pureStep2_gol d g R C hg hb
+
+theorem pureRun2_gol_eq_life (d : Int) (R C : Nat) :
+    ∀ (k : Nat) (g : Grid Int), Rect g R C → Binary g →
+      pureRun2 (fun n => (golRule (n.map (·.map (·.getD 0)))).getD d) R C 1 false k g = lifeRun R C k g
+  | 0, _, _, _ => rfl
+  | k + 1, g, hg, hb => by
+    simp only [pureRun2, lifeRun]
+    rw [pureStep2_gol_eq_life d R C g hg hb,
+      pureRun2_gol_eq_life d R C k _ (lifeStep_rect R C g) (lifeStep_binary R C g)]
+
+/-- **`evolve2d` with the Game of Life rule is the Life update of the torus**: for every binary
+    `R × C` grid (`R, C ≥ 1`, square or not), every number of timesteps and every memoize mode
+    (`False`, `True`, `'recursive'`), the result is the given history followed by the iterated Life steps
+    of its last grid. -/
+theorem evolve2d_gol_eq_life (d : Int) (mode : Mode) (hm : mode ≠ .bad) (hist : List (Grid Int))
+    (init : Grid Int) (hlast : hist.getLast? = some init) (T : Nat) (hT : 1 ≤ T) (R C : Nat)
+    (hg : Rect init R C) (hb : Binary init) (hR : 1 ≤ R) (hC : 1 ≤ C) :
+    evolve2dFixed hist T (golRule2 d) 1 .moore mode () = .ok (hist ++ lifeRun R C (T - 1) init, ()) := by
+  have hp : PureVal2 (golRule2 d) (fun n => (golRule (n.map (·.map (·.getD 0)))).getD d) :=
+    fun _ _ _ _ => rfl
+  have key := C04.evolve2dFixed_grids_pure (golRule2 d) _ hp mode hm hist init hlast T hT R C 1 .moore
+    (by decide) hg hR hC hR hC ()
+  rw [show decide (NbType.moore = NbType.vonNeumann) = false by decide,
+    pureRun2_gol_eq_life d R C (T - 1) init hg hb] at key
+  cases hx : evolve2dFixed hist T (golRule2 d) 1 .moore mode () with
+  | error e => rw [hx] at key; cases key
+  | ok v =>
+    rw [hx] at key
+    obtain ⟨gs, u⟩ := v
+    cases u
+    simp only [Except.map, Except.ok.injEq] at key
+    rw [key]
+
+/-- The `n`-th grid produced is the `(n+1)`-fold Life step. -/
+theorem lifeRun_getElem? (R C : Nat) :
+    ∀ (k n : Nat) (g : Grid Int), n < k → (lifeRun R C k g)[n]? = some (lifeIter R C (n + 1) g)
+  | 0, _, _, h => by omega
+  | k + 1, 0, g, _ => by simp [lifeRun, lifeIter]
+  | k + 1, n + 1, g, h => by
+    simp only [lifeRun, List.getElem?_cons_succ]
+    rw [lifeRun_getElem? R C k n _ (by omega)]
+    rfl
+
+/-! ## Translation equivariance -/
+
+/-- The torus translated by `(dx, dy)`: `(shift g)[i][j] = g[i - dx][j - dy]`, indices modulo `R`, `C`
+    (what was at `(i, j)` is now at `(i + dx, j + dy)`). -/
+def shift (R C dx dy : Nat) (g : Grid Int) : Grid Int :=
+  (List.range R).map fun i => (List.range C).map fun j =>
+    cell g ((i + R - dx % R) % R) ((j + C - dy % C) % C)
+
+/-- **The Life update commutes with every translation of the torus** (no assumption on the grid):
+    a pattern evolves the same way wherever it is placed, also across the periodic boundary. -/
+theorem lifeStep_shift (R C dx dy : Nat) (g : Grid Int) :
+    lifeStep R C (shift R C dx dy g) = shift R C dx dy (lifeStep R C g) := by
+  exact Life.lifeGrid_shift R C dx dy g
+
+theorem lifeIter_shift (R C dx dy : Nat) :
+    ∀ (k : Nat) (g : Grid Int), lifeIter R C k (shift R C dx dy g) = shift R C dx dy (lifeIter R C k g)
+  | 0, _ => rfl
+  | k + 1, g => by
+    simp only [lifeIter]
+    rw [lifeStep_shift, lifeIter_shift R C dx dy k]
+
+/-- Translations commute with each other. -/
+theorem shift_comm (R C dx dy ex ey : Nat) (g : Grid Int) :
+    shift R C dx dy (shift R C ex ey g) = shift R C ex ey (shift R C dx dy g) :=
+  Life.shiftG_comm R C dx dy ex ey g
+
+/-- A still life stays a still life wherever it is placed. -/
+theorem still_life_anywhere (R C dx dy : Nat) (g : Grid Int) (h : lifeStep R C g = g) :
+    lifeStep R C (shift R C dx dy g) = shift R C dx dy g := by
+  rw [lifeStep_shift, h]
+
+/-- A pattern of period `p` has period `p` wherever it is placed. -/
+theorem period_anywhere (R C dx dy p : Nat) (g : Grid Int) (h : lifeIter R C p g = g) :
+    lifeIter R C p (shift R C dx dy g) = shift R C dx dy g := by
+  rw [lifeIter_shift, h]
+
+/-- A pattern that reappears translated by `(a, b)` after `p` steps does so wherever it is placed. -/
+theorem spaceship_anywhere (R C dx dy p a b : Nat) (g : Grid Int)
+    (h : lifeIter R C p g = shift R C a b g) :
+    lifeIter R C p (shift R C dx dy g) = shift R C a b (shift R C dx dy g) := by
+  rw [lifeIter_shift, h, shift_comm]
+
+/-- A still life handed to `evolve2d` is returned unchanged at every timestep. -/
+theorem still_life_run (R C : Nat) (g : Grid Int) (h : lifeStep R C g = g) :
+    ∀ k, lifeRun R C k g = List.replicate k g
+  | 0 => rfl
+  | k + 1 => by
+    simp only [lifeRun, List.replicate_succ]
+    rw [h, still_life_run R C g h k]
+
+/-! ## Patterns (kernel evaluation on all tori `5..10 × 5..10`) -/
+
+/-- The `R × C` grid whose live cells are `cells`. -/
+def place (R C : Nat) (cells : List (Nat × Nat)) : Grid Int :=
+  (List.range R).map fun i => (List.range C).map fun j => if (i, j) ∈ cells then 1 else 0
+
+def glider : List (Nat × Nat) := [(0, 1), (1, 2), (2, 0), (2, 1), (2, 2)]
+def blinker : List (Nat × Nat) := [(1, 0), (1, 1), (1, 2)]
+def block : List (Nat × Nat) := [(0, 0), (0, 1), (1, 0), (1, 1)]
+def beehive : List (Nat × Nat) := [(0, 1), (0, 2), (1, 0), (1, 3), (2, 1), (2, 2)]
+
+/-- **Glider** (checked sizes only: every torus `R × C` with `5 ≤ R, C ≤ 10`, 36 shapes; larger tori are
+    not covered by this theorem): after four steps the glider placed at the origin reappears moved by one
+    cell down and one cell right. -/
+theorem glider_period_partial : ∀ R ∈ List.range' 5 6, ∀ C ∈ List.range' 5 6,
+    lifeIter R C 4 (place R C glider) = shift R C 1 1 (place R C glider) := by
+  decide +kernel
+
+/-- … and it is not back earlier: after 1, 2, 3 steps the grid is not that translate (same sizes). -/
+theorem glider_not_earlier_partial : ∀ R ∈ List.range' 5 6, ∀ C ∈ List.range' 5 6,
+    ∀ k ∈ [1, 2, 3], lifeIter R C k (place R C glider) ≠ shift R C 1 1 (place R C glider) := by
+  decide +kernel
+
+/-- **Glider anywhere** (same 36 torus sizes): placed at any offset `(dx, dy)` — in particular straddling
+    the periodic boundary — it reappears one cell further down-right after four steps. -/
+theorem glider_anywhere_partial (R C : Nat) (hR : R ∈ List.range' 5 6) (hC : C ∈ List.range' 5 6)
+    (dx dy : Nat) :
+    lifeIter R C 4 (shift R C dx dy (place R C glider))
+      = shift R C 1 1 (shift R C dx dy (place R C glider)) :=
+  spaceship_anywhere R C dx dy 4 1 1 _ (glider_period_partial R hR C hC)
+
+/-- **Blinker** (sizes `5..10 × 5..10`): period two and not one. -/
+theorem blinker_period_two : ∀ R ∈ List.range' 5 6, ∀ C ∈ List.range' 5 6,
+    lifeIter R C 2 (place R C blinker) = place R C blinker ∧
+    lifeStep R C (place R C blinker) ≠ place R C blinker := by
+  decide +kernel
+
+/-- **Block** (sizes `5..10 × 5..10`): a still life. -/
+theorem block_fixed : ∀ R ∈ List.range' 5 6, ∀ C ∈ List.range' 5 6,
+    lifeStep R C (place R C block) = place R C block := by
+  decide +kernel
+
+/-- **Beehive** (sizes `6..10 × 6..10`): a still life. -/
+theorem beehive_fixed : ∀ R ∈ List.range' 6 5, ∀ C ∈ List.range' 6 5,
+    lifeStep R C (place R C beehive) = place R C beehive := by
+  decide +kernel
+
+theorem place_binary (R C : Nat) (cells : List (Nat × Nat)) : Binary (place R C cells) :=
+  Life.tabulate_binary R C _ fun i j => by split <;> simp
+
+theorem place_rect (R C : Nat) (cells : List (Nat × Nat)) : Rect (place R C cells) R C :=
+  Life.tabulate_rect R C _
+
+theorem shift_binary (R C dx dy : Nat) (g : Grid Int) (hb : Binary g) : Binary (shift R C dx dy g) :=
+  Life.tabulate_binary R C _ fun _ _ => Life.cell_binary' hb _ _
+
+theorem shift_rect (R C dx dy : Nat) (g : Grid Int) : Rect (shift R C dx dy g) R C :=
+  Life.tabulate_rect R C _
+
+/-- **Still lifes stay fixed under `evolve2d`**: a binary grid that the Life update leaves unchanged is
+    returned at every timestep, in every memoize mode. -/
+theorem still_life_evolve (R C : Nat) (hR : 1 ≤ R) (hC : 1 ≤ C) (g : Grid Int) (hg : Rect g R C)
+    (hb : Binary g) (hfix : lifeStep R C g = g) (mode : Mode) (hm : mode ≠ .bad) (T : Nat) (hT : 1 ≤ T) :
+    evolve2dFixed [g] T golRule2 1 .moore mode () = .ok (List.replicate T g, ()) := by
+  rw [evolve2d_gol_eq_life 0 mode hm [g] g rfl T hT R C hg hb hR hC, still_life_run R C g hfix]
+  obtain ⟨k, rfl⟩ : ∃ k, T = k + 1 := ⟨T - 1, by omega⟩
+  simp [List.replicate_succ]
+
+/-- The block through `evolve2d`: any of the 36 torus sizes, any placement (also across the boundary),
+    any memoize mode, any number of timesteps. -/
+theorem block_evolve (R C : Nat) (hR : R ∈ List.range' 5 6) (hC : C ∈ List.range' 5 6) (dx dy : Nat)
+    (mode : Mode) (hm : mode ≠ .bad) (T : Nat) (hT : 1 ≤ T) :
+    evolve2dFixed [shift R C dx dy (place R C block)] T golRule2 1 .moore mode ()
+      = .ok (List.replicate T (shift R C dx dy (place R C block)), ()) := by
+  have hR1 : 1 ≤ R := by simp [List.mem_range'] at hR; omega
+  have hC1 : 1 ≤ C := by simp [List.mem_range'] at hC; omega
+  exact still_life_evolve R C hR1 hC1 _ (shift_rect R C dx dy _)
+    (shift_binary R C dx dy _ (place_binary R C block))
+    (still_life_anywhere R C dx dy _ (block_fixed R hR C hC)) mode hm T hT
+
+/-- The glider through `evolve2d`: same sizes, any placement and mode; the grid at timestep `4` (the
+    fifth row of the returned array) is the initial grid moved by one cell down and right. -/
+theorem glider_evolve (R C : Nat) (hR : R ∈ List.range' 5 6) (hC : C ∈ List.range' 5 6) (dx dy : Nat)
+    (mode : Mode) (hm : mode ≠ .bad) (T : Nat) (hT : 5 ≤ T) :
+    (evolve2dFixed [shift R C dx dy (place R C glider)] T golRule2 1 .moore mode ()).map (·.1[4]?)
+      = .ok (some (shift R C 1 1 (shift R C dx dy (place R C glider)))) := by
+  have hR1 : 1 ≤ R := by simp [List.mem_range'] at hR; omega
+  have hC1 : 1 ≤ C := by simp [List.mem_range'] at hC; omega
+  rw [evolve2d_gol_eq_life 0 mode hm [shift R C dx dy (place R C glider)] (shift R C dx dy (place R C glider))
+    rfl T (by omega) R C (shift_rect R C dx dy _) (shift_binary R C dx dy _ (place_binary R C glider)) hR1 hC1]
+  simp only [Except.map, List.cons_append, List.nil_append, List.getElem?_cons_succ]
+  rw [lifeRun_getElem? R C (T - 1) 3 _ (by omega), glider_anywhere_partial R C hR hC dx dy]
+
+/-! ## Non-vacuity -/
+
+/-- The glider on a 5×5 torus, one step. -/
+example : lifeStep 5 5 (place 5 5 glider)
+    = [[0,0,0,0,0],[1,0,1,0,0],[0,1,1,0,0],[0,1,0,0,0],[0,0,0,0,0]] := by decide +kernel
+
+/-- The model itself (recursive memoization) on the glider: four steps on a 6×5 torus. -/
+example : (match evolve2dFixed [place 6 5 glider] 5 golRule2 1 .moore .recursive () with
+      | .ok (gs, _) => gs.getLast?
+      | .error _ => none)
+    = some (shift 6 5 1 1 (place 6 5 glider)) := by decide +kernel
+
+/-- A translate that wraps around both boundaries. -/
+example : shift 5 5 4 4 (place 5 5 glider)
+    = [[0,1,0,0,0],[1,1,0,0,1],[0,0,0,0,0],[0,0,0,0,0],[1,0,0,0,0]] := by decide +kernel
+
 end Cpl.C11
